@@ -452,13 +452,29 @@ def c04_nonmapping(ctx):
                      "validate(1, %r) raised %s although check_schema of the default class raises SchemaError" % (schema, got), case)
 
 
+C04_CORPUS = [
+    # keywords next to a reference are ignored by every entry point alike
+    ({"$ref": "#/definitions/a", "type": "string", "definitions": {"a": {}}}, [1, "s", None]),
+    ({"$ref": "#/definitions/a", "type": "integer", "minimum": 5, "definitions": {"a": {"type": "string"}}}, [1, "s", 7]),
+    ({"properties": {"x": {"$ref": "#/definitions/a", "type": "integer", "enum": []}}, "definitions": {"a": {"type": "string"}}}, [{"x": "s"}, {"x": 1}, {}]),
+    ({"items": {"$ref": "#/definitions/a", "type": "array", "maxItems": 0}, "definitions": {"a": {"minimum": 1}}}, [[0, 2], [3], "s"]),
+    ({"type": "object", "required_or_not": 1, "properties": {"a": {"type": "string"}, "b": {"type": "integer"}}}, [{"a": 1, "b": "s"}, {"a": "s", "b": 1}, []]),
+]
+
+
 def c04(ctx):
     res = ctx.res
     c04_nonmapping(ctx)
-    for _ in range(ctx.n(1500)):
-        tag, schema, store, wdocs, info = gen_case(ctx, refs=ctx.r.random() < 0.2, malformed=0.25)
+    corpus = [(t, s, i) for (s, insts) in C04_CORPUS for i in insts for t in DRAFT_TAGS]
+    for _ in range(ctx.n(1500) + len(corpus)):
+        if corpus:
+            tag, schema, inst0 = corpus.pop()
+            store, wdocs, info = {}, {}, {"kinds": []}
+        else:
+            inst0 = None
+            tag, schema, store, wdocs, info = gen_case(ctx, refs=ctx.r.random() < 0.2, malformed=0.25)
         cls = impl.DRAFTS[tag]
-        inst = ctx.g.instance_for(tag, schema)
+        inst = ctx.g.instance_for(tag, schema) if inst0 is None else inst0
         fc = ctx.r.choice([None, None, None, "draft"])
         case = {"cls": tag, "schema": schema, "inst": inst, "fc": fc}
         try:
@@ -1299,17 +1315,16 @@ def insert_foreign(ctx, tag, schema):
         spot = ctx.r.choice(spots)
         name = ctx.r.choice(names)
         k = ctx.r.random()
-        if ctx.r.random() < 0.3:
-            # a later specification's keyword right next to the keyword it modifies there, with a telling value
-            name = ctx.r.choice(sorted(gen.LATER_PARTNER))
+        # a later specification's keyword right next to the keyword it modifies there, with a telling value
+        usable = [nm for nm in sorted(gen.LATER_PARTNER) if nm not in gen.VOCAB[tag]
+                  and any(gen.LATER_PARTNER[nm][0] in sp and "$ref" not in sp and nm not in sp for sp in spots)]
+        if usable and ctx.r.random() < 0.5:
+            name = ctx.r.choice(usable)
             partner, vals = gen.LATER_PARTNER[name]
-            near = [sp for sp in spots if partner in sp and "$ref" not in sp]
-            if near and name not in gen.VOCAB[tag]:
-                spot = ctx.r.choice(near)
-                if name not in spot:
-                    spot[name] = copy.deepcopy(ctx.r.choice(vals))
-                    n += 1
-                continue
+            spot = ctx.r.choice([sp for sp in spots if partner in sp and "$ref" not in sp and name not in sp])
+            spot[name] = copy.deepcopy(ctx.r.choice(vals))
+            n += 1
+            continue
         if "$ref" in spot and k < 0.3:
             # ANY keyword next to a reference is ignored: real keywords of the draft with values the instance fails
             for kw, val in ctx.r.sample([("type", "null"), ("enum", []), ("minimum", 10 ** 9), ("maxItems", 0), ("maxLength", 0),
